@@ -5,6 +5,7 @@ import (
 	"errors"
 	"fmt"
 	"net"
+	"sort"
 	"strings"
 	"sync"
 	"sync/atomic"
@@ -197,6 +198,14 @@ func c16(c *core.Ctx) {
 					if n%3 == 0 {
 						s = fmt.Sprintf("turn:host%d.example.org:%d?transport=tcp", n, 1000+n) // valid and distinct: exercises any cache
 					}
+					if n%3 == 1 {
+						// valid and distinct QUERIES (repeated keys take the first value, letters may be percent-encoded)
+						q := []string{"transport=udp", "transport=tcp", "transport=%75dp", "transport=t%63p", "transport=ud%70"}[rk.Intn(5)]
+						for k := rk.Intn(6); k > 0; k-- {
+							q += fmt.Sprintf("&transport=%s", []string{"udp", "tcp", "u%64p", "%74cp"}[rk.Intn(4)])
+						}
+						s = fmt.Sprintf("turn%s:h%d.example:%d?%s", []string{"", "s"}[rk.Intn(2)], rk.Intn(50), 1+rk.Intn(65535), q)
+					}
 					_, _ = stun.ParseURI(s)
 				}
 			}()
@@ -233,6 +242,63 @@ func c16(c *core.Ctx) {
 		c.Count("inputs_over_4KiB", 1)
 		c.Eval(1)
 		c.Distinct(uint64(i) | 8<<50)
+	})
+	// thousands of distinct valid hosts with revisits at every distance (caches and intern tables age, promote and evict),
+	// and the time of a parse at the end of a long run of hits against the time at its beginning
+	c.SectionSerial("many-distinct-hosts", 2, func(i int64, r *gen.Rand) {
+		hosts := make([]string, 6000)
+		for k := range hosts {
+			switch k % 4 {
+			case 0:
+				hosts[k] = fmt.Sprintf("stun:h%d.example.org:%d", k, 1+k%65000)
+			case 1:
+				hosts[k] = fmt.Sprintf("turn:[2001:db8::%x]?transport=tcp", k)
+			case 2:
+				hosts[k] = fmt.Sprintf("turns:10.%d.%d.%d:5349", k>>16&255, k>>8&255, k&255)
+			default:
+				hosts[k] = fmt.Sprintf("stuns:x%d", k)
+			}
+		}
+		for k := 0; k < len(hosts); k++ {
+			c16Call(c, hosts[k])
+			if k > 0 && k%7 == 0 {
+				c16Call(c, hosts[r.Intn(k)]) // an old acquaintance, at a random distance
+			}
+			if k >= 1024 && k%5 == 0 {
+				c16Call(c, hosts[k-1024-r.Intn(min(1024, k-1023))]) // ... and at the distances where two-generation tables turn over
+			}
+		}
+		c.Eval(int64(len(hosts)))
+		if i == 0 {
+			return
+		}
+		// time: the MEDIAN of 301 fresh parses (a statistic that descheduling and GC pauses on a loaded machine do not
+		// move), before and after three million hits on 100 URIs
+		median := func() time.Duration {
+			ds := make([]time.Duration, 301)
+			for k := range ds {
+				s := fmt.Sprintf("stun:fresh-%d.example:%d", r.U64()%100000000, 1+k)
+				t0 := time.Now()
+				_, _ = stun.ParseURI(s)
+				ds[k] = time.Since(t0)
+			}
+			sort.Slice(ds, func(x, y int) bool { return ds[x] < ds[y] })
+
+			return ds[150]
+		}
+		early := median()
+		for k := 0; k < 3000000; k++ {
+			_, _ = stun.ParseURI(hosts[k%100])
+		}
+		late := median()
+		c.Max("median_fresh_parse_after_3M_hits_ns", late.Nanoseconds())
+		c.Max("median_fresh_parse_before_ns", early.Nanoseconds())
+		c.Count("hits_before_late_measurement", 3000000)
+		if late > time.Millisecond && late > 100*early {
+			c.Violate("time-grows-with-history", "time-grows-with-history", map[string]interface{}{
+				"problem":   "median time of 301 parses of fresh 30-byte URIs after three million parses of 100 other URIs, against the same median before them",
+				"before_ns": early.Nanoseconds(), "after_ns": late.Nanoseconds()})
+		}
 	})
 	// runs of one byte of every class (incl. UTF-8 continuation and lead bytes, NUL, 0xFF) at lengths around the usual
 	// buffer/limit sizes, combined with the affixes that select the parser's different exits
